@@ -369,3 +369,32 @@ func init() {
 	addMutant(Mutant{Name: "c01-wrapper-binary-arm-dropped", Property: "C01", File: "gogen/gogen.go",
 		Old: "\t{{ if eq $type \"Binary\" -}}\n\tcase []byte:\n\t\t// Unmarshalling hands a binary value over as a plain byte slice.\n\t\treturn &{{ $intfName }}_{{ $typeName }}{v}, nil\n\t{{ end -}}\n", New: "", Expect: "unionHelper:arm(Ybinary)"})
 }
+
+func init() {
+	// rules added after the sixth seed batch
+	addMutant(Mutant{Name: "c05-opts-dropped-in-helper", Property: "C05", File: "ygot/struct_validation_map.go",
+		Old: "\t\tif err := copyStruct(d.Elem(), v.Elem(), fmt.Sprintf(\"%s[%#v]\", accessPath, k.Interface()), opts...); err != nil {\n\t\t\terrs.Add(err)\n\t\t\treturn true\n\t\t}",
+		New: "\t\tif err := mergeOMElem(d, v, fmt.Sprintf(\"%s[%#v]\", accessPath, k.Interface())); err != nil {\n\t\t\terrs.Add(err)\n\t\t\treturn true\n\t\t}",
+		More: []Edit{{File: "ygot/struct_validation_map.go", Old: "// copyBinaryField copies srcField", New: "func mergeOMElem(d, v reflect.Value, accessPath string) error {\n\treturn copyStruct(d.Elem(), v.Elem(), accessPath)\n}\n\n// copyBinaryField copies srcField"}},
+		Expect: "via:ygot.mergeOMElem"})
+	addMutant(Mutant{Name: "c07-keycheck-skips-default-key", Property: "C07", File: "ytypes/list.go",
+		Old: "\tif util.IsValueNil(keyValue.Interface()) {\n\t\treturn nil\n\t}\n\n\tif !structElems.FieldByName(keyFieldName).IsValid() {", New: "\tif util.IsValueNilOrDefault(keyValue.Interface()) {\n\t\treturn nil\n\t}\n\n\tif !structElems.FieldByName(keyFieldName).IsValid() {", Expect: "checkBasicKeyValue:skip#1"})
+	addMutant(Mutant{Name: "c09-compare-skips-after-partial", Property: "C09", File: "util/gnmi.go",
+		Old: "\t\telemRelation := comparePathElem(a.Elem[i], b.Elem[i])", New: "\t\tif partial && a.Elem[i].Name == b.Elem[i].Name {\n\t\t\tcontinue\n\t\t}\n\t\telemRelation := comparePathElem(a.Elem[i], b.Elem[i])", Expect: "ComparePaths:every-element"})
+	addMutant(Mutant{Name: "c09-query-wildcard-name-skips-keys", Property: "C09", File: "util/gnmi.go",
+		Old: "\t\tif queryElem.Name != \"*\" && queryElem.Name != pathElem.Name {\n\t\t\treturn false\n\t\t}", New: "\t\tif queryElem.Name == \"*\" {\n\t\t\tcontinue\n\t\t}\n\t\tif queryElem.Name != pathElem.Name {\n\t\t\treturn false\n\t\t}", Expect: "PathMatchesQuery:every-element"})
+	addMutant(Mutant{Name: "c10-insert-writes-through-pointer", Property: "C10", File: "util/reflect.go",
+		Old: "\t\tn = reflect.New(t)\n\t\tn.Elem().Set(v)\n\t}\n\n\tif !n.IsValid() {", New: "\t\tif f := pv.Elem().FieldByName(fieldName); !f.IsNil() && f.Type().Elem() == t {\n\t\t\tf.Elem().Set(v)\n\t\t\treturn nil\n\t\t}\n\t\tn = reflect.New(t)\n\t\tn.Elem().Set(v)\n\t}\n\n\tif !n.IsValid() {", Expect: "InsertIntoStruct:Set#"})
+	addMutant(Mutant{Name: "c20-decimal-scale-table", Property: "C20", File: "ytypes/leaf.go",
+		Old: "\t\t\tprec := new(big.Int).Exp(big.NewInt(10), big.NewInt(int64(v.DecimalVal.Precision)), nil)", New: "\t\t\tprec := big.NewInt(decimal64ScaleTable[v.DecimalVal.Precision])",
+		More: []Edit{{File: "ytypes/leaf.go", Old: "// sanitizeGNMI decodes the GNMI TypedValue", New: "var decimal64ScaleTable = [...]int64{1, 10, 100, 1000, 10000, 100000, 1000000, 10000000, 100000000, 1000000000, 10000000000, 100000000000, 1000000000000, 10000000000000, 100000000000000, 1000000000000000, 10000000000000000, 100000000000000000, 1000000000000000000}\n\n// sanitizeGNMI decodes the GNMI TypedValue"}},
+		Expect: "table-index#1:decimal64ScaleTable"})
+	addMutant(Mutant{Name: "c26-listkey-name-not-uniquified", Property: "C26", File: "gogen/unordered_list.go",
+		Old: "Name:     genutil.MakeNameUnique(listElem.ListKeys[keName].Name, usedKeyElemNames),", New: "Name:     listElem.ListKeys[keName].Name,",
+		More: []Edit{{File: "gogen/unordered_list.go", Old: "\tusedKeyElemNames := make(map[string]bool)\n", New: "\tusedKeyElemNames := make(map[string]bool)\n\t_ = genutil.MakeNameUnique(\"\", usedKeyElemNames)\n"}},
+		Expect: "yangListFieldToGoType:goStructField#1:Name"})
+	addMutant(Mutant{Name: "c33-prefix-strip-hoisted", Property: "C33", File: "gogen/goelements.go",
+		Old: "\tif isTypedef {\n\t\tif strings.Contains(value, \":\") {\n\t\t\tvalue = strings.Split(value, \":\")[1]\n\t\t}\n\t\tswitch args.yangType.Kind {", New: "\tif strings.Contains(value, \":\") {\n\t\tvalue = strings.Split(value, \":\")[1]\n\t}\n\tif isTypedef {\n\t\tswitch args.yangType.Kind {", Expect: "yangDefaultValueToGo:rewrite#1"})
+	addMutant(Mutant{Name: "c33-emptytree-skips-presence", Property: "C33", File: "ygot/struct_validation_map.go",
+		Old: "\t\t\tpVal := reflect.New(fType.Type.Elem())\n\t\t\tinitialiseTree(pVal.Elem().Type(), pVal.Elem())", New: "\t\t\tif util.IsYangPresence(fType) {\n\t\t\t\tcontinue\n\t\t\t}\n\t\t\tpVal := reflect.New(fType.Type.Elem())\n\t\t\tinitialiseTree(pVal.Elem().Type(), pVal.Elem())", Expect: "initialiseTree:create#1:conditions"})
+}
